@@ -169,6 +169,23 @@ func init() {
 					}
 					c.Queries = append(c.Queries, eQuery{A: []eAssign{{F: 3, V: tvStr("y")}}}, eQuery{})
 					add(cacheIn{Cache: true, Case: c, Thr: 2, Seed: 61, MissPct: 0, DropPct: 0})
+					// two generations of one builder (Reset in between): conjunctions the first generation cached come
+					// back at the same position and size with an expression that no longer parses
+					g1 := eCase{Kind: kind, Policy: pol}
+					g1.Docs = []eDoc{
+						{ID: 7, Cons: []eConj{{{F: 0, Inc: true, V: ints(5, 0)}, {F: 3, Inc: true, V: tvStr("sh")}}}},
+						{ID: 8, Cons: []eConj{{{F: 0, Inc: true, V: ints(6, 0)}}, {{F: 0, Inc: false, V: ints(5, 10)}, {F: 3, Inc: true, V: tvStr("sh")}}}},
+					}
+					g2 := g1
+					g2.Docs = []eDoc{
+						{ID: 7, Cons: []eConj{{{F: 0, Inc: true, V: ints(5, 0)}, {F: 3, Inc: true, V: TV{T: "other:map"}}}}},
+						{ID: 8, Cons: []eConj{{{F: 0, Inc: true, V: ints(6, 0)}}, {{F: 0, Inc: false, V: TV{T: "other:struct"}}, {F: 3, Inc: true, V: tvStr("sh")}}}},
+					}
+					for _, a := range []int64{0, 5, 12, 20} {
+						g2.Queries = append(g2.Queries, eQuery{A: []eAssign{{F: 0, V: tvInt("int", a)}, {F: 3, V: tvStr("sh")}}}, eQuery{A: []eAssign{{F: 0, V: tvInt("int", a)}}})
+					}
+					g1.Queries = g2.Queries
+					add(cacheIn{Cache: true, Case: g1, Case2: &g2, Thr: 2, Seed: 62, MissPct: 0, DropPct: 0, Reuse: true})
 				}
 			}
 		},
